@@ -265,7 +265,17 @@ def main(argv=None):
     if a.replay:
         with open(a.replay) as f:
             rec = json.load(f)
-        ctx = Ctx(pid, "quick", seed)
+        # exclusions of open known findings apply to replays as well
+        flags = set()
+        for kf in _known_findings():
+            if pid in kf["properties"] and kf["status"] == "open" and kf["witness"].get(pid) is not None:
+                try:
+                    _replay_case(mod, kf["witness"][pid], Ctx(pid, "quick", seed))
+                except Violation:
+                    flags.update(kf.get("excludes", []))
+                except Exception:
+                    pass
+        ctx = Ctx(pid, "quick", seed, flags=flags)
         try:
             _replay_case(mod, rec, ctx)
         except Violation as v:
